@@ -108,7 +108,9 @@ def b01 (b : Bool) : String := if b then "1" else "0"
 def c04Step (_ : Unit) (line : String) : Unit × String :=
   let out : Option String :=
     match tokens line with
-    | "ev" :: fn :: variant :: r => run (do
+    -- `sq0` / `sqn` are the calls of a sequence on one kept problem object in the harness; the model
+    -- is pure, so it answers each of them like an independent `ev`
+    | "ev" :: fn :: variant :: r | "sq0" :: fn :: variant :: r | "sqn" :: fn :: variant :: r => run (do
         let mask ← nat; let n ← nat; let m ← nat
         let x ← vec; let f0 ← flt
         let gf ← vec; let g ← vec; let J ← vec; let Hf ← vec; let HG ← vec
